@@ -186,13 +186,15 @@ class NaiveForecaster(_OptionalForecastingHorizonMixin, _BaseWindowForecaster):
 
             else:
                 # if the window length is not a multiple of sp, we pad the
-                # window with nan values for easy computation of the mean
+                # window with nan values for easy computation of the mean;
+                # padding goes in front so that seasons stay aligned with the
+                # end of the window
                 remainder = self.window_length_ % self.sp_
                 if remainder > 0:
                     pad_width = self.sp_ - remainder
                 else:
                     pad_width = 0
-                last_window = np.hstack([last_window, np.full(pad_width, np.nan)])
+                last_window = np.hstack([np.full(pad_width, np.nan), last_window])
 
                 # reshape last window, one column per season
                 last_window = last_window.reshape(
